@@ -134,6 +134,9 @@ impl WriteExt for Writer<&mut BytesMut> {
 
 impl<W: WriteExt + ?Sized> WriteExt for IoBufWriter<W> {
     fn reserve_with(&mut self, additional: usize) -> io::Result<&mut [MaybeUninit<u8>]> {
+        // the reserved space is in the inner writer, so the bytes still pending in the
+        // BufWriter's own buffer must reach the inner writer first to keep the order.
+        io::Write::flush(self)?;
         self.get_mut().reserve_with(additional)
     }
 
